@@ -112,6 +112,15 @@ theorem C03_edit_ball (A : List α) (q y : List α) (k e : Nat) (hy : ∀ c ∈ 
 theorem C03_edit_ball_nodup (A : List α) (q : List α) (k : Nat) :
     ((bfsBall (levNeighbors A) q k).map (·.1)).Nodup := bfsBall_keys_nodup _ _ _
 
+/-- HISTORIES for LookupDB: a dictionary object built once and queried any number of times (any
+max_edits shared by the history, with or without pdist_mode) answers every lookup like a fresh
+one-shot search and never changes its stored dictionary -/
+theorem C03_lookupdb_history (A : List α) (pdist : Bool) (k : Nat) (ref : List (List α))
+    (qss : List (List (List α))) :
+    LookDB.run (levNeighbors A) (fun a b => lev a b) (fun _ => true) pdist k (LookDB.build ref) qss =
+      (LookDB.build ref, qss.map fun qs => lookupDefault A pdist ref qs k) :=
+  LookDB.run_build _ _ _ _ _ _ _
+
 /-! non-vacuity -/
 example : (0, 0, 0) ∈ symdelTwoDefault 1 [['C', 'A']] [['C', 'A'], ['D']] :=
   C03_identical_at_zero 1 _ _ 0 0 ['C', 'A'] rfl rfl
